@@ -291,5 +291,9 @@ func run(c Case) vt.Verdict {
 }
 
 func TestProp(t *testing.T) {
-	vt.Run(t, prop, vt.Sub[Case]{Prop: prop, Name: "sessions", Gen: gen, Run: run, Classify: classify}.WithBudget(2000, 8000))
+	vt.Run(t, prop,
+		vt.Sub[Case]{Prop: prop, Name: "sessions", Gen: gen, Run: run, Classify: classify}.WithBudget(2000, 8000),
+		vt.Sub[ModCase]{Prop: prop, Name: "modifyfit", Gen: genMod, Run: runMod, Classify: func(c ModCase) (bool, []string) {
+			return c.Delta >= -2 && c.Delta <= 2, []string{fmt.Sprintf("header=%d", 256+c.Delta)}
+		}}.WithBudget(120, 1500))
 }
